@@ -72,7 +72,7 @@ theorem new_usable : Usable Enc.new := ⟨by simp [Enc.new], rfl⟩
 prior buffer content, no store `e.buf[i] = v` and no slice bound leaves the 65536-byte buffer
 (the sticky `oob` flag — Go's index-out-of-range panic — stays clear) and the buffer keeps its size. -/
 theorem buf_inbounds (e : Enc) (w : Writer) (pix : Array UInt8) (width height stride : Nat)
-    (depth colorType : UInt8) (he : Usable e) (hw : w.writes.size = 0)
+    (depth colorType : UInt8) (he : Usable e) (hw : w.writes.size = 0) (hlen : pix.size < 2 ^ 63)
     (hw2 : width ≤ 0xFFFFFF) (hh2 : height ≤ 0xFFFFFF)
     (hd : depth = 8 ∨ depth = 16) (hc : colorType = 1 ∨ colorType = 2 ∨ colorType = 3)
     (hpix : ∀ y, y < height → y * stride + (loopParams depth colorType).2 * width ≤ pix.size) :
@@ -81,7 +81,7 @@ theorem buf_inbounds (e : Enc) (w : Writer) (pix : Array UInt8) (width height st
   have hw0 : WOk w.failAt w true := by
     refine ⟨rfl, ?_⟩
     cases w.failAt <;> simp [hw]
-  have h := (encode_safe e w pix width height stride depth colorType he hw0 hw2 hh2 hd hc hpix).1
+  have h := (encode_safe e w pix width height stride depth colorType he hw0 hlen hw2 hh2 hd hc hpix).1
   exact ⟨h.2, h.1⟩
 
 /-- `ej ≤ ejMax` at every pixel boundary: whatever the pixel loop does (including flushes), it ends
@@ -111,7 +111,7 @@ same width, height, depth, the PNG colour type (0 | 2 | 6) and exactly the input
 first `n` of every `k` source bytes, i.e. RGBX without its X byte — however rows and pixels
 straddle the flushes of the 64 KiB buffer. -/
 theorem png_roundtrip (e : Enc) (pix : Array UInt8) (width height stride : Nat) (depth colorType : UInt8)
-    (he : Usable e)
+    (he : Usable e) (hlen : pix.size < 2 ^ 63)
     (hw : 0 < width) (hw2 : width ≤ 0xFFFFFF) (hh : 0 < height) (hh2 : height ≤ 0xFFFFFF)
     (hd : depth = 8 ∨ depth = 16) (hc : colorType = 1 ∨ colorType = 2 ∨ colorType = 3)
     (hpix : (height - 1) * stride + (loopParams depth colorType).2 * width ≤ pix.size) :
@@ -119,7 +119,7 @@ theorem png_roundtrip (e : Enc) (pix : Array UInt8) (width height stride : Nat) 
     Spec.decode (concatWrites (encode e (Writer.new none) pix width height stride depth colorType).w)
       = some ⟨width, height, depth.toNat, (pngFileFormatEncoding colorType).toNat,
           imageBytes pix (loopParams depth colorType).1 (loopParams depth colorType).2 width stride height 0⟩ := by
-  have h := encode_decodes e pix width height stride depth colorType he.1 he.2 hw hw2 hh hh2 hd hc hpix
+  have h := encode_decodes e pix width height stride depth colorType he.1 he.2 hlen hw hw2 hh hh2 hd hc hpix
   exact ⟨h.1, h.2.2.2⟩
 
 /-- What the decoded `pixels` of `png_roundtrip` are, pointwise: `height` rows of `width * n` bytes,
@@ -140,7 +140,7 @@ theorem decoded_pixels_pointwise (pix : Array UInt8) (n k width stride height : 
 yields a successful decode of that image. -/
 example : ∃ im, Spec.decode (concatWrites (encode Enc.new (Writer.new none) #[1, 2, 3, 4] 2 2 2 8 1).w) = some im ∧
     im.width = 2 ∧ im.height = 2 := by
-  have h := png_roundtrip Enc.new #[1, 2, 3, 4] 2 2 2 8 1 new_usable (by decide) (by decide) (by decide)
+  have h := png_roundtrip Enc.new #[1, 2, 3, 4] 2 2 2 8 1 new_usable (by decide) (by decide) (by decide) (by decide)
     (by decide) (Or.inl rfl) (Or.inl rfl) (by decide)
   exact ⟨_, h.2, rfl, rfl⟩
 
@@ -151,7 +151,7 @@ arbitrary writers (failing or not), and calls rejected by the argument validatio
 inductive Reached : Enc → Prop
   | fresh : Reached Enc.new
   | encoded {e : Enc} (h : Reached e) (w : Writer) (hw : w.writes.size = 0) (pix : Array UInt8)
-      (width height stride : Nat) (depth colorType : UInt8)
+      (hlen : pix.size < 2 ^ 63) (width height stride : Nat) (depth colorType : UInt8)
       (hw2 : width ≤ 0xFFFFFF) (hh2 : height ≤ 0xFFFFFF)
       (hd : depth = 8 ∨ depth = 16) (hc : colorType = 1 ∨ colorType = 2 ∨ colorType = 3)
       (hpix : ∀ y, y < height → y * stride + (loopParams depth colorType).2 * width ≤ pix.size) :
@@ -167,18 +167,18 @@ nothing else about the previous images matters — `png_roundtrip` needs only `U
 theorem reached_usable {e : Enc} (h : Reached e) : Usable e := by
   induction h with
   | fresh => exact new_usable
-  | encoded _ w hw pix width height stride depth colorType hw2 hh2 hd hc hpix ih =>
+  | encoded _ w hw pix hlen width height stride depth colorType hw2 hh2 hd hc hpix ih =>
     have hw0 : WOk w.failAt w true := by
       refine ⟨rfl, ?_⟩
       cases w.failAt <;> simp [hw]
-    exact (encode_safe _ w pix width height stride depth colorType ih hw0 hw2 hh2 hd hc hpix).1
+    exact (encode_safe _ w pix width height stride depth colorType ih hw0 hlen hw2 hh2 hd hc hpix).1
   | rejected _ w pix width height stride depth colorType hbad ih =>
     rw [(encode_rejects _ w pix width height stride depth colorType hbad).2.1]; exact ih
 
 /-- `encoder_reusable`: the n-th `Encode` on one Encoder, after any history of earlier images,
 writer failures and rejected calls, has the same guarantee as the first. -/
 theorem encoder_reusable {e : Enc} (hr : Reached e) (pix : Array UInt8) (width height stride : Nat)
-    (depth colorType : UInt8)
+    (depth colorType : UInt8) (hlen : pix.size < 2 ^ 63)
     (hw : 0 < width) (hw2 : width ≤ 0xFFFFFF) (hh : 0 < height) (hh2 : height ≤ 0xFFFFFF)
     (hd : depth = 8 ∨ depth = 16) (hc : colorType = 1 ∨ colorType = 2 ∨ colorType = 3)
     (hpix : (height - 1) * stride + (loopParams depth colorType).2 * width ≤ pix.size) :
@@ -186,7 +186,7 @@ theorem encoder_reusable {e : Enc} (hr : Reached e) (pix : Array UInt8) (width h
     Spec.decode (concatWrites (encode e (Writer.new none) pix width height stride depth colorType).w)
       = some ⟨width, height, depth.toNat, (pngFileFormatEncoding colorType).toNat,
           imageBytes pix (loopParams depth colorType).1 (loopParams depth colorType).2 width stride height 0⟩ :=
-  png_roundtrip e pix width height stride depth colorType (reached_usable hr) hw hw2 hh hh2 hd hc hpix
+  png_roundtrip e pix width height stride depth colorType (reached_usable hr) hlen hw hw2 hh hh2 hd hc hpix
 
 /-! ## Writer errors and argument validation -/
 
@@ -194,7 +194,7 @@ theorem encoder_reusable {e : Enc} (hr : Reached e) (pix : Array UInt8) (width h
 arguments either never reaches that call and returns `ok`, or returns the write error with the
 failing call being the last `Write` made (exactly `k + 1` calls). -/
 theorem writer_error_propagates (e : Enc) (k : Nat) (pix : Array UInt8) (width height stride : Nat)
-    (depth colorType : UInt8) (he : Usable e)
+    (depth colorType : UInt8) (he : Usable e) (hlen : pix.size < 2 ^ 63)
     (hw2 : width ≤ 0xFFFFFF) (hh2 : height ≤ 0xFFFFFF)
     (hd : depth = 8 ∨ depth = 16) (hc : colorType = 1 ∨ colorType = 2 ∨ colorType = 3)
     (hpix : ∀ y, y < height → y * stride + (loopParams depth colorType).2 * width ≤ pix.size) :
@@ -203,7 +203,7 @@ theorem writer_error_propagates (e : Enc) (k : Nat) (pix : Array UInt8) (width h
     ((encode e (Writer.new (some k)) pix width height stride depth colorType).status = .writeError ∧
       (encode e (Writer.new (some k)) pix width height stride depth colorType).w.writes.size = k + 1) := by
   have hw0 : WOk (some k) (Writer.new (some k)) true := by simp [WOk, Writer.new]
-  rcases (encode_safe e (Writer.new (some k)) pix width height stride depth colorType he hw0 hw2 hh2 hd hc hpix).2
+  rcases (encode_safe e (Writer.new (some k)) pix width height stride depth colorType he hw0 hlen hw2 hh2 hd hc hpix).2
     with ⟨h1, h2⟩ | ⟨h1, h2⟩
   · exact Or.inl ⟨h1, h2.2.1 rfl⟩
   · exact Or.inr ⟨h1, h2.2.2 rfl⟩
